@@ -103,7 +103,7 @@ theorem defaults_are_documented :
 #print axioms GoCrypt.FlowModel.flowNewHash_eq_model_desext
 #print axioms GoCrypt.FlowModel.flowNewHash_eq_model_bcrypt
 #print axioms GoCrypt.FlowModel.flowNewHash_eq_model_argon2
-#print axioms GoCrypt.FlowModel.flowNewHash_sunmd5_partial
+#print axioms GoCrypt.FlowModel.flowNewHash_eq_model_sunmd5
 #print axioms GoCrypt.FlowModel.flowSalt_eq_model_md5
 #print axioms GoCrypt.FlowModel.flowParams_eq_model_sha256
 #print axioms GoCrypt.FlowModel.flowParams_eq_model_sha512
